@@ -1,6 +1,7 @@
 """C11 -- derived data stays coherent; queries do not move objects
 (S1, S2, S3, P1, U1)."""
 from ..rules import proj_rules as P
+from ..rules import cache_rules as CA
 from ..rules.common import u1
 
 PROJ, HYP = P.PROJ, P.HYP
@@ -22,6 +23,7 @@ def run(ctx):
     P.rule_s2(ctx)
     P.rule_s3(ctx)
     P.rule_p1(ctx)
+    CA.rule_c2(ctx, "ProjectiveObject")
     u1(ctx, ENTRIES, min_functions=30)
     ctx.r.assume("numerical equality of stored and recomputed derived data "
                  "and the effect of numerical queries (in-place row "
